@@ -111,6 +111,11 @@ Section Spec.
   Definition all_ok (ps : list pattern) (t : list entry) : Prop :=
     Forall (file_ok ps) (eligible_files_rec t).
 
+  (* the culprit of an aborted run: an eligible file that cannot be read, or whose analysis
+     panics for a selected pattern *)
+  Definition file_bad (ps : list pattern) (f : file) : Prop :=
+    snd f = None \/ exists c p s, snd f = Some c /\ In p ps /\ analyze p c = Panic s.
+
   (* C15: the lines recorded for (file name, pattern) in a result map; [] = nothing recorded
      (line sets in a map are never empty) *)
   Definition verdict (v : list (string * list Z)) (name : string) : list Z :=
@@ -128,3 +133,11 @@ Arguments flatten {pattern} m.
 Arguments nonempty_entries {pattern} m.
 Arguments file_ok {pattern} analyze ps f.
 Arguments all_ok {pattern} analyze ps t.
+Arguments file_bad {pattern} analyze ps f.
+
+(* the same tree listed in another order: the listing of any directory, at any depth, permuted *)
+Inductive tree_perm : list entry -> list entry -> Prop :=
+  | tree_perm_here : forall l l', Permutation l l' -> tree_perm l l'
+  | tree_perm_deep : forall d ch ch' l1 l2, tree_perm ch ch' ->
+      tree_perm (l1 ++ EDir d ch :: l2) (l1 ++ EDir d ch' :: l2)
+  | tree_perm_trans : forall a b c, tree_perm a b -> tree_perm b c -> tree_perm a c.
